@@ -52,8 +52,8 @@ def unparse(v):
 # ---------------------------------------------------------------------------------- forests
 
 class T:
-    def __init__(self, i, d, kids):
-        self.id, self.dir, self.kids = i, d, kids
+    def __init__(self, i, d, kids, bad=False):
+        self.id, self.dir, self.kids, self.bad = i, d, kids, bad     # bad: a root path that does not exist
 
 
 def gen_forest(rng, max_nodes, max_roots=3):
@@ -105,36 +105,60 @@ def size(f):
 
 
 def tval(t):
-    return vlist([str(t.id), "1" if t.dir else "0", vlist([tval(k) for k in t.kids])])
+    return vlist([str(t.id), "2" if t.bad else ("1" if t.dir else "0"), vlist([tval(k) for k in t.kids])])
+
+
+def add_bad_roots(rng, f, k):
+    """insert k nonexistent root paths (ids after the forest's) at random positions of the root list"""
+    nn = size(f)
+    f = list(f)
+    for j in range(k):
+        f.insert(rng.randint(0, len(f)), T(nn + j, False, [], bad=True))
+    return f
 
 
 def oracle_ids(f, resp):
     """independent statement of what a complete walk visits: children only below Continue answers"""
     out = []
     for t in f:
+        if t.bad:
+            continue                      # a root that does not exist: an error entry, nothing to visit
         out.append(t.id)
         if resp[t.id] == 0 and t.dir:
             out += oracle_ids(t.kids, resp)
     return out
 
 
+def oracle_roots(f, resp):
+    """the root loop of visit(): (error entries handed to the visitor, walk goes on?) -- only a Quit answer to an
+    error entry stops the walk; Skip and Continue go on with the next root"""
+    errs = []
+    for t in f:
+        if t.bad:
+            errs.append(t.id)
+            if resp[t.id] == 2:
+                return errs, False
+    return errs, True
+
+
 def all_ids(f):
     out = []
     for t in f:
-        out.append(t.id)
-        out += all_ids(t.kids)
+        if not t.bad:
+            out.append(t.id)
+            out += all_ids(t.kids)
     return out
 
 
 # ---------------------------------------------------------------------------------- cases
 
-def mk_case(base, n, forest, resp, quit_at, policy, seed, aux, max_slots=4000):
-    return dict(n=n, forest=forest, resp=resp, quit_at=quit_at, policy=policy, seed=seed, aux=aux,
+def mk_case(base, n, forest, resp, quit_at, policy, seed, aux, max_slots=4000, same_fs=0):
+    return dict(n=n, forest=forest, resp=resp, quit_at=quit_at, policy=policy, seed=seed, aux=aux, same_fs=same_fs,
                 line=vlist([vbytes(base), str(n), vlist([tval(t) for t in forest]),
                             vlist([str(r) for r in resp]), vopt(None if quit_at is None else str(quit_at)),
                             str(policy), str(seed),
                             vlist([vlist([str(a), str(b)]) for a, b in aux]) if policy == 0
-                            else vlist([str(a) for a in aux]), str(max_slots)]))
+                            else vlist([str(a) for a in aux]), str(max_slots), str(same_fs)]))
 
 
 def gen_resp(rng, nn, quitty):
@@ -165,6 +189,23 @@ def gen_case(rng, base, max_nodes):
         quit_at = rng.randint(0, max(0, nn - 1))
     elif mode < 0.35:
         resp = gen_resp(rng, nn, True)
+    same_fs = 0
+    if rng.random() < 0.15:
+        # root paths that do not exist: their error entries go to the visitor of the calling thread; the answer
+        # (Continue / Skip, rarely Quit) is resp[id]; with same_file_system the device lookup fails first
+        k = rng.randint(1, 2)
+        f = add_bad_roots(rng, f, k)
+        resp = resp + [rng.choice([0, 1, 1, 1, 0, 2] if rng.random() < 0.3 else [0, 1, 1]) for _ in range(k)]
+        same_fs = rng.randint(0, 1)
+        if quit_at is not None:
+            quit_at = min(quit_at, nn - 1)
+    c = gen_case_sched(rng, base, n, f, resp, quit_at, nn)
+    if same_fs:
+        c = mk_case(base, c["n"], c["forest"], c["resp"], c["quit_at"], c["policy"], c["seed"], c["aux"], same_fs=1)
+    return c
+
+
+def gen_case_sched(rng, base, n, f, resp, quit_at, nn):
     p = rng.random()
     seed = rng.getrandbits(48)
     if p < 0.25:
@@ -200,6 +241,8 @@ class Stats:
         self.kinds = {}
         self.steals_ok = 0
         self.steal_batches = 0
+        self.bad_root_runs = 0
+        self.bad_root_skip = 0
         self.quit_stolen = 0
         self.quit_runs = 0
         self.waits = 0
@@ -219,7 +262,8 @@ def check_runs(ctx, cases, st, want_decisions=False):
     for i, o in enumerate(outs):
         c = cases[i]
         rep = dict(kind=701, line=c["line"], n=c["n"], policy=c["policy"], seed=c["seed"], aux=c["aux"],
-                   quit_at=c["quit_at"], resp=c["resp"])
+                   quit_at=c["quit_at"], resp=c["resp"], same_fs=c.get("same_fs", 0),
+                   roots=[("missing:%d" % t.id) if t.bad else t.id for t in c["forest"]])
         c["rep"] = rep
         if o in ("PANIC", "MISSING") or o.startswith("PARSEFAIL"):
             ctx.violation("harness %s on scheduled walk" % o, rep, nfi=True)
@@ -250,7 +294,15 @@ def check_runs(ctx, cases, st, want_decisions=False):
         answers = [x[2] for x in calls]
         resp_eff = ints(v[3])
         resp_eff += [0] * (size(c["forest"]) - len(resp_eff))
-        quit_answered = 2 in answers
+        root_errs = [ints(x) for x in v[8]] if len(v) > 8 else []
+        exp_errs, goes_on = oracle_roots(c["forest"], c["resp"])
+        quit_answered = 2 in answers or not goes_on
+        if exp_errs:
+            st.bad_root_runs += 1
+            st.bad_root_skip += 1 if any(c["resp"][e] == 1 for e in exp_errs) else 0
+        if status == 0 and [e[0] for e in root_errs] != exp_errs:
+            ctx.violation("root loop of visit(): error entries %r handed to the visitor, expected %r (roots %r)"
+                          % ([e[0] for e in root_errs], exp_errs, rep["roots"]), rep)
         slots = v[4]
         nslots = len(slots)
         st.runs += 1
@@ -298,12 +350,14 @@ def check_runs(ctx, cases, st, want_decisions=False):
             decisions[i] = [ints(d) for d in v[6]]
         # --- the property itself, by an independent oracle on the real run
         if status == 0:
-            expected = oracle_ids(c["forest"], resp_eff)
+            expected = oracle_ids(c["forest"], resp_eff) if goes_on else []
             if len(set(visited)) != len(visited):
                 ctx.violation("an entry was handed to a visitor twice: %r" % (visited,), dict(rep, visited=visited))
             elif not quit_answered and sorted(visited) != sorted(expected):
-                ctx.violation("no Quit answer, yet visited %r differs from the reachable entries %r"
-                              % (sorted(visited), sorted(expected)), dict(rep, visited=visited, expected=expected))
+                ctx.violation("no Quit answer, yet visited %r differs from the reachable entries %r (roots %r, answers "
+                              "to root errors %r)" % (sorted(visited), sorted(expected), rep["roots"],
+                                                      [(e, c["resp"][e]) for e in exp_errs]),
+                              dict(rep, visited=visited, expected=expected))
             elif quit_answered and not set(visited) <= set(expected):
                 ctx.violation("after Quit: visited %r not within the reachable entries %r" % (visited, expected),
                               dict(rep, visited=visited, expected=expected))
@@ -330,9 +384,11 @@ def check_runs(ctx, cases, st, want_decisions=False):
         if mvis != visited:
             ctx.violation("model's visit sequence %r differs from the real one %r" % (mvis, visited),
                           dict(rep, model_line=mlines[j]), nfi=True)
-        if sorted(mexp) != sorted(oracle_ids(c["forest"], resp_eff)):
+        if sorted(mexp) != sorted(oracle_ids(c["forest"], resp_eff) if goes_on else []):
             ctx.violation("Spec ids_under_skip %r differs from the oracle" % (mexp,), dict(rep, model_line=mlines[j]), nfi=True)
         if not allex:
+            st.nfi += 1
+        if not allex and st.nfi <= NFI_CAP:
             ctx.violation("walk returned but the model is not in an all-exited state", dict(rep, model_line=mlines[j]), nfi=True)
         if busy > mu0:
             ctx.violation("more non-idle steps (%d) than the variant's bound mu(init)=%d" % (busy, mu0),
@@ -387,6 +443,9 @@ def soak(ctx, base, reps, nforests):
         quit_at = rng.randint(0, nn - 1) if rng.random() < 0.3 else None
         resp = gen_resp(rng, nn, False)
         n = rng.choice([2, 3, 4, 8])
+        if rng.random() < 0.3:
+            f = add_bad_roots(rng, f, 1)
+            resp = resp + [rng.choice([0, 1])]
         lines.append(vlist([vbytes(base), str(n), vlist([tval(t) for t in f]), vlist([str(r) for r in resp]),
                             vopt(None if quit_at is None else str(quit_at)), str(reps)]))
         meta.append((f, resp, quit_at, n))
@@ -442,6 +501,22 @@ def run(ctx):
             for n in (2, 3):
                 for sd in range(6):
                     corpus.append(mk_case(base, n, f, [0] * size(f), None, 4, 100 * n + sd, [6, 100]))
+        # root paths that do not exist, before / between / after good roots; Continue or Skip to their error entries
+        for shape in ([[None]], [[None, [None]], None]):
+            good = forest_from_shape(shape)
+            nn = size(good)
+            for pos in range(len(good) + 1):
+                for ans in (0, 1):
+                    for sfs in (0, 1):
+                        f = list(good)
+                        f.insert(pos, T(nn, False, [], bad=True))
+                        for n in (1, 2):
+                            corpus.append(mk_case(base, n, f, [0] * nn + [ans], None, 1, 7 * pos + n, [], same_fs=sfs))
+        f = [T(1, False, [], bad=True), T(2, False, [], bad=True)]
+        corpus.append(mk_case(base, 2, f, [0, 1, 0], None, 1, 1, []))        # only bad roots: no worker starts
+        f = forest_from_shape([[None]])
+        f = [T(2, False, [], bad=True)] + f
+        corpus.append(mk_case(base, 2, f, [0, 0, 2], None, 1, 1, []))        # Quit to the root error: walk abandoned
         check_runs(ctx, corpus, st)
         # generated
         ng = ctx.count(4500)
@@ -470,6 +545,8 @@ def run(ctx):
     finally:
         shutil.rmtree(base, ignore_errors=True)
     ctx.cov["scheduled_runs"] = st.runs
+    ctx.cov["runs_with_missing_root_paths"] = st.bad_root_runs
+    ctx.cov["runs_with_skip_answer_to_a_root_error"] = st.bad_root_skip
     ctx.cov["runs_not_replayable_in_model"] = st.nfi
     ctx.cov["slots"] = st.slots
     ctx.cov["yield_kinds"] = {KINDS.get(k, k): v for k, v in sorted(st.kinds.items())}
@@ -505,11 +582,11 @@ def replay(ctx, data):
             print(vlib.code(703, [line]))
             return
         c = dict(n=r["n"], forest=[], resp=r["resp"], quit_at=r["quit_at"], policy=r["policy"], seed=r["seed"],
-                 aux=r["aux"], line=line)
+                 aux=r["aux"], line=line, same_fs=r.get("same_fs", 0))
         v = parse_val(line)
 
         def mk(t):
-            return T(t[0], bool(t[1]), [mk(k) for k in t[2]])
+            return T(t[0], t[1] == 1, [mk(k) for k in t[2]], bad=(t[1] == 2))
         c["forest"] = [mk(t) for t in v[2]]
         check_runs(ctx, [c], st)
         print("replayed: runs=%d violations=%d" % (st.runs, len(ctx.violations)))
